@@ -5,6 +5,7 @@ package mpx
 
 import (
 	"fmt"
+	"reflect"
 	"strings"
 
 	"github.com/basecomplextech/baselibrary/async"
@@ -59,6 +60,23 @@ func vOpts(x *vexp.Ctx) Options {
 	o.ReadBufferSize = units.Bytes(x.P("rbuf", 4096))
 	o.WriteBufferSize = units.Bytes(x.P("wbuf", 4096))
 	return o
+}
+
+// vOpenChannel calls the tree's openChannel. Parameters that a change of the tree appends to its signature are filled
+// from the default options (integers: the default channel window) or with zero values, so the seam still builds.
+func vOpenChannel(c internalConn, client bool, msg pmpx.ChannelOpen) *channel {
+	f := reflect.ValueOf(openChannel)
+	args := []reflect.Value{reflect.ValueOf(&c).Elem(), reflect.ValueOf(client), reflect.ValueOf(msg)}
+	for i := 3; i < f.Type().NumIn(); i++ {
+		t := f.Type().In(i)
+		switch t.Kind() {
+		case reflect.Int, reflect.Int32, reflect.Int64:
+			args = append(args, reflect.ValueOf(int64(Default().ChannelWindowSize)).Convert(t))
+		default:
+			args = append(args, reflect.Zero(t))
+		}
+	}
+	return f.Call(args)[0].Interface().(*channel)
 }
 
 func vFreshGlobals() {
